@@ -477,6 +477,18 @@ func c18Program(rng *rand.Rand, wasm bool) (string, []string) {
 		}
 		dump("v", cur)
 	}
+	// the whole value assigned at once (after its fields have been accessed one by one), then the two diverge again
+	sb.WriteString("    v = w;\n")
+	for k, x := range cp {
+		cur[k] = x
+	}
+	dump("v", cur)
+	lf2 := leaves[rng.IntN(len(leaves))]
+	nv2 := c18Sentinel(lf2.t, 170)
+	fmt.Fprintf(&sb, "    v%s = %s;\n", lf2.path, c18Fmt(lf2.t, nv2))
+	cur[lf2.path] = nv2
+	dump("v", cur)
+	dump("w", cp)
 	// by-value call
 	fmt.Fprintf(&sb, "    let r: %s = poke(v);\n    io::Println(r);\n", fl.t)
 	exp = append(exp, c18Fmt(fl.t, c18Sentinel(fl.t, 200)))
@@ -493,7 +505,7 @@ func c18Program(rng *rand.Rand, wasm bool) (string, []string) {
 
 func checkC18(c *Ctx) error {
 	r := c.R
-	r.Rule = "(a) random type expressions (depth <= 4) over all primitive widths 1-32 bytes, str, references, fixed arrays, structs, optionals and results, evaluated by the compiler's DataLayout for pointer sizes 4 and 8 and checked against the layout invariants; (b) generated programs over a random composite (structs of mixed widths incl. 128/256-bit natively, nested structs, fixed arrays of structs) that print every leaf after initialisation with distinct full-width sentinels, after each single-leaf overwrite, after a copy + overwrite of the copy (both values), after whole sub-aggregates are assigned from the other variable and between sibling array elements (incl. arrays of 2-7 byte structs), after a by-value call, and after wrapping in an optional (some / none), plus three canary locals — native and wasm; non-trivial = a distinct type expression / program whose every observation matched"
+	r.Rule = "(a) random type expressions (depth <= 4) over all primitive widths 1-32 bytes, str, references, fixed arrays, structs, optionals and results, evaluated by the compiler's DataLayout for pointer sizes 4 and 8 and checked against the layout invariants; (b) generated programs over a random composite (structs of mixed widths incl. 128/256-bit natively, nested structs, fixed arrays of structs) that print every leaf after initialisation with distinct full-width sentinels, after each single-leaf overwrite, after a copy + overwrite of the copy (both values), after whole sub-aggregates are assigned from the other variable and between sibling array elements (incl. arrays of 2-7 byte structs), after the whole value is assigned from the other variable and one leaf is overwritten again (both values), after a by-value call, and after wrapping in an optional (some / none), plus three canary locals — native and wasm; non-trivial = a distinct type expression / program whose every observation matched"
 	r.Assumptions = []string{"optional flag at offset SizeOf(inner) and result discriminant after the payload union (as runtime/core/optional.c and the emitters use them)", "the wasm back end has no optionals and no 128/256-bit integers: those parts run natively only"}
 	nTypes := c.N(2000, 100000)
 	for _, ptr := range []int{4, 8} {
